@@ -12,7 +12,7 @@ CHECKS = {
          "Trusts model/preds.go (reference predicates) and the documented absent rule; no PostTransforms in these cases.",
          "DESIGN.md section 5 C01"),
  "C02": (RAPID + "generated schema x input x mode; multiset comparison of issues against an executable specification",
-         "Generated-input search: random schema trees (all node kinds, modifiers, tests, nesting) with inputs derived from per-leaf witnesses and perturbed (absent forms, neighbours, un-coercible junk), each executed several times so that different field visit orders occur; the returned issues must equal, as a multiset of (path, code, type), the issues computed by an independent executable specification, and nil-ness must agree. Cases include custom coercers, Preprocess wrappers, reusable z.TestFunc values specialised by field assignment, complex tests (z.Test{Func} reporting through ctx.AddIssue with ctx.Issue() or hand-built issues), schemas assembled with Merge/Extend/Pick/Omit, embedded destination fields, inputs as typed / user-defined Go maps and Go structs; every execution starts after a fixed process prelude (collected issues, recovered panic). Exploration only: absence of counter-examples within the generated bounds.",
+         "Generated-input search: random schema trees (all node kinds, modifiers, tests, nesting) with inputs derived from per-leaf witnesses and perturbed (absent forms, neighbours, un-coercible junk), each executed several times so that different field visit orders occur; the returned issues must equal, as a multiset of (path, code, type), the issues computed by an independent executable specification, and nil-ness must agree. Cases include custom coercers, Preprocess wrappers, reusable z.TestFunc values specialised by field assignment, complex tests (z.Test{Func} reporting through ctx.AddIssue with ctx.Issue() or hand-built issues), schemas assembled with Merge/Extend/Pick/Omit, embedded destination fields, inputs as typed / user-defined Go maps and Go structs; every execution starts after, and its result is read again after, a fixed process prelude (collected and dropped issues of map- and list-returning executions, a recovered panic, an undecodable pointer-root request, three-level executions whose callbacks check what they are handed). Exploration only: absence of counter-examples within the generated bounds.",
          "Trusts the harness specification (model/spec.go, model/preds.go), written from the documentation; cases whose coercion the documentation leaves open are skipped and counted; PostTransforms never fail in these cases.",
          "DESIGN.md section 5 C02"),
  "C03": (RAPID + "representation matrix x schema options; whole-destination comparison with the documented coercion table over sentinel-prefilled destinations",
@@ -32,7 +32,7 @@ CHECKS = {
          "Relies on Go's map iteration randomisation plus insertion-order forcing; excludes constructs that are order-dependent by the documented global PostTransform gating.",
          "DESIGN.md section 5 C09"),
  "C18": ("exhaustive boundary product + " + RAPID + "random magnitudes; exact big-number oracle",
-         "Destination width x source representation x boundary magnitudes enumerated completely, plus random values; the outcome must be a coerce issue or the exact (truncated / correctly rounded) number, decided with math/big; padded numeric strings, json.Number, near-integer floats, exponents up to 1e60, numbers inside typed maps and typed slices. Exhaustive over the listed boundary sets, exploration beyond.",
+         "Destination width x source representation x boundary magnitudes enumerated completely, plus random values; the outcome must be a coerce issue or the exact (truncated / correctly rounded) number, decided with math/big; padded numeric strings, json.Number, near-integer floats, exponents up to 1e60, numbers inside typed maps (map[string]any and typed Go maps of the value's own type) and typed slices. Exhaustive over the listed boundary sets, exploration beyond.",
          "Rounding to nearest on float narrowing is accepted as the same number; strings outside plain decimal/exponent syntax are only checked when rejected or exactly modelled.",
          "DESIGN.md section 5 C18"),
  "C06": (RAPID + "wild-value generator (registry of ~120 Go values spliced into valid inputs, hostile JSON / form / query / env text) + exhaustive wild-value x root-kind product; oracle: recover() around Parse",
@@ -44,15 +44,15 @@ CHECKS = {
          "Only this package imports zog/internals. Dirty objects are limited to shapes reachable through zog's API. Pristine reference computed with internals.ClearPools().",
          "DESIGN.md section 5 C07"),
  "C08": (RAPID + "generated concurrent workloads on shared schema objects under the Go race detector, per-call comparison with sequential results",
-         "Workloads of 8-24 goroutines hammering 3-8 shared schema objects with private data (Go values and zjson documents, per-call formatters, i18n installed with per-call languages in a third of the workloads, results handed back through Collect* or Sanitize*AndCollect whose returned messages must be the call's own, lists that grow from workload to workload, schemas whose PostTransform fails), started on COLD library state; the test binary is built with -race: any race report, any call whose issues differ from the executable specification, from a concurrent call of the same input, or from the same call alone afterwards, is a violation. Random schedule sampling amplified by the race detector's happens-before analysis; it cannot show absence of schedule-dependent bugs.",
+         "Workloads of 8-24 goroutines hammering 3-8 shared schema objects with private data (Go values and zjson documents, per-call formatters, i18n installed with per-call languages in a third of the workloads, results handed back through Collect* or Sanitize*AndCollect whose returned messages must be the call's own, lists that grow from workload to workload, schemas whose PostTransform fails, lists of lists with a Default and writing PostTransforms called without a list), started on COLD library state; the test binary is built with -race: any race report, any call whose issues differ from the executable specification, from a concurrent call of the same input, or from the same call alone afterwards, is a violation. Random schedule sampling amplified by the race detector's happens-before analysis; it cannot show absence of schedule-dependent bugs.",
          "The harness does not own the scheduler; a schedule-dependent failure is reported with the workload and the race report, not a replayable interleaving.",
          "DESIGN.md section 5 C08"),
  "C10": (RAPID + "generated nested schemas x tag sets x front ends; structural invariants on the issue map + path comparison with the specification + sanitizer round trip",
-         "Every returned map is checked for well-formedness (each issue exactly once under its Path key, $root, $first singleton identical to the first issue recorded, no empty lists, nil iff no issue); paths must equal the documented key chain (source tag, zog tag, schema key, [i], IssuePath) through map, zjson, zhttp JSON/form/query and zenv and in Validate; SanitizeMap/List keep keys and order. Further sub-checks: executions whose only issue stems from a PostTransform that returned an error / a wrapped issue / a ZogIssue (post-errors-*), container-heavy schemas of depth 6 executed on empty object pools (deep-cold-*), and chains of up to 40 path segments with long and empty keys (long-paths-*); maps a caller still holds are re-checked after later executions. Exploration. Two listed open findings are probed and their trigger classes not generated.",
+         "Every returned map is checked for well-formedness (each issue exactly once under its Path key, $root, $first singleton identical to the first issue recorded, no empty lists, nil iff no issue); paths must equal the documented key chain (source tag, zog tag, schema key, [i], IssuePath) through map, zjson, zhttp JSON/form/query and zenv and in Validate; SanitizeMap/List keep keys and order. Further sub-checks: executions whose only issue stems from a PostTransform that returned an error / a wrapped issue / a ZogIssue with or without Path, or reported through ctx.AddIssue(ctx.Issue()), also on catching nodes (post-errors-*), container-heavy schemas of depth 6 executed on empty object pools (deep-cold-*), and chains of up to 40 path segments with long and empty keys (long-paths-*); maps a caller still holds are re-checked after later executions. Exploration. Two listed open findings are probed and their trigger classes not generated.",
          "Expected paths from model/spec.go with the documented tag priority; tag values without dots (commas allowed: the whole tag value is the key).",
          "DESIGN.md section 5 C10"),
  "C11": ("exhaustive catalogue of built-in tests x types x formatter configurations + " + RAPID + "random precedence of formatter levels",
-         "Part A enumerates every built-in test of every schema type, required / not_nil / coerce and the front-end decode failures, in both modes and eight formatter configurations (default; i18n with language en / es / a regional key es-MX / none / unknown; i18n with a configured context key named or not): code, type, params, value reference, non-empty message without placeholders. The message must be the rendering of THIS cell's language. Part B: random schemas with marker messages at test, execution and global (plain or i18n) level: each issue must carry the most specific marker and the language of this execution's context. Part C: consecutive undecodable requests under six formatter configurations must each carry their own execution's message. Exhaustive for the catalogue, exploration for precedence.",
+         "Part A enumerates every built-in test of every schema type, required / not_nil / coerce and the front-end decode failures, in both modes and eight formatter configurations (default; i18n with language en / es / a regional key es-MX / none / unknown; i18n with a configured context key named or not): code, type, params, value reference, non-empty message without placeholders. The message must be the rendering of THIS cell's language. A second enumeration repeats the test / Required cells with a MessageFunc that renders the issue it is handed: what it saw must be what the issue finally says. Part B: random schemas with marker messages at test, execution and global (plain or i18n) level: each issue must carry the most specific marker and the language of this execution's context. Part C: consecutive undecodable requests under six formatter configurations must each carry their own execution's message. Exhaustive for the catalogue, exploration for precedence.",
          "Expected codes and param keys from zconst / reference.md (model/preds.go DefaultParams); Bool True/False accept either documented code.",
          "DESIGN.md section 5 C11"),
  "C12": (RAPID + "recorder callbacks everywhere; invariants over the totally ordered event log of one execution",
@@ -60,7 +60,7 @@ CHECKS = {
          "Recorders are supplied by the harness and never panic; tests carry no Message so every issue passes the logging execution formatter.",
          "DESIGN.md section 5 C12"),
  "C13": (RAPID + "differential: Validate(&v) versus Parse(toMap(v), &fresh) on fully populated values",
-         "For generated schemas (no Preprocess) and fully populated typed values, validating in place and parsing the same value presented as a map must report the same (path, code, type, message) multiset and leave equal values (custom functions may normalise the value through their pointer); a second sub-check places one failing PostTransform (error or ZogIssue) at a random node; a third uses linear (single-path) schemas with infinities and extreme values. Exploration.",
+         "For generated schemas (no Preprocess) and fully populated typed values, validating in place and parsing the same value presented as a map must report the same (path, code, type, message) multiset and leave equal values (custom functions may normalise the value through their pointer); a second sub-check places one failing PostTransform (error, wrapped error, ZogIssue with or without Path) at a random node; a third uses linear (single-path) schemas with infinities and extreme values. Exploration.",
          "Values compared only where the documented global PostTransform gating makes them order-independent.",
          "DESIGN.md section 5 C13"),
  "C14": (RAPID + "one logical record rendered through six front ends; each compared with the specification and all with each other",
@@ -76,11 +76,11 @@ CHECKS = {
          "Keys picked/omitted are the operand's own keys.",
          "DESIGN.md section 5 C16"),
  "C17": (RAPID + "random builder chains applied call by call, read literally into a model node and compared with the specification; shared schema objects; WithCoercer locality catalogue",
-         "Random chains of Required/Optional/Default/Catch/Not()/tests/test options on real schemas of 8 kinds; issues compared as multisets of (path, code, type, message class, params), destinations on success; structs reusing ONE schema object at 2-3 places are compared with the specification of independent copies; a finite catalogue and a generated sub-check (a third of the nodes of every kind carry their own coercer) check that WithCoercer acts on its own schema only (siblings, through Ptr, slice vs element, nested); Message / MessageFunc options in either order, strict-mode Bool codes, tests with empty Params. Exploration.",
+         "Random chains of Required/Optional/Default/Catch/Not()/tests/test options on real schemas of 8 kinds; issues compared as multisets of (path, code, type, message class, params), destinations on success; every chain's schema is used a second time after the first result was handed back through Collect; structs reusing ONE schema object at 2-3 places are compared with the specification of independent copies; a finite catalogue and a generated sub-check (a third of the nodes of every kind carry their own coercer) check that WithCoercer acts on its own schema only (siblings, through Ptr, slice vs element, nested); Message / MessageFunc options in either order, strict-mode Bool codes, tests with empty Params. Exploration.",
          "Not() only generated directly before a negatable test (what the NotStringSchema interface allows).",
          "DESIGN.md section 5 C17"),
  "C19": (RAPID + "execution histories with deep snapshots of inputs and schema-owned values, destination scribbling, verbatim repeats",
-         "Histories of 2-6 executions on one schema: the input's deep snapshot and the snapshots of every reference-typed value the schema was given (slice defaults, OneOf lists) must be unchanged after each call and after the harness overwrites the returned destination (incl. spare slice capacity); a verbatim repeated execution must give the same result; Validate without Default/Catch/PostTransform leaves the value unchanged. Inputs include Go values of the destination's own type; a second sub-check treats requests handed to zhttp as input data (parsed form unchanged, same result when parsed again); per-execution formatters are markers that must not survive into the next execution; a third sub-check compares the whole value after Validate with the specification's (also with issues, also below a Preprocess whose function failed). Exploration.",
+         "Histories of 2-6 executions on one schema: the input's deep snapshot and the snapshots of every reference-typed value the schema was given (slice defaults, OneOf lists) must be unchanged after each call and after the harness overwrites the returned destination (incl. spare slice capacity); a verbatim repeated execution must give the same result; Validate without Default/Catch/PostTransform leaves the value unchanged. Inputs include Go values of the destination's own type; a second sub-check treats requests handed to zhttp as input data (parsed form, method, URL, headers and length unchanged, same result when parsed again; every form record also as an undecodable twin with Content-Type parameters); per-execution formatters are markers that must not survive into the next execution; a third sub-check compares the whole value after Validate with the specification's (also with issues, also below a Preprocess whose function failed). Exploration.",
          "Schema-owned values are observed through references kept by the harness.",
          "DESIGN.md section 5 C19"),
  "C20": ("exhaustive sweeps over small alphabets/ranges + " + RAPID + "random strings and grammar-derived subjects; independent reference predicates",
